@@ -241,7 +241,7 @@ def run_cfg(chk, facts, cfg):
             continue
         n += 1
         cmp_table(f, label)
-    no_overrides(chk, PID, facts, sfx, [path], 'Confidence ordering and equality', traits=('PartialOrd', 'PartialEq', 'Ord', 'Eq', 'Clone', 'Default', 'TryFrom', 'From'),
+    no_overrides(chk, PID, facts, sfx, [path], 'Confidence ordering and equality', traits=('PartialOrd', 'PartialEq', 'Ord', 'Eq', 'Default', 'TryFrom', 'From'),
                  checkers={(tr, mt): (lambda fnrec, mt=mt: cmp_table(fnrec, mt + '(override)')) for tr, mt in (('PartialEq', 'ne'), ('PartialOrd', 'lt'), ('PartialOrd', 'le'), ('PartialOrd', 'gt'), ('PartialOrd', 'ge'))})
     if cfg == 'default':
         chk.floor('confidence-api', n, 17)
